@@ -6,6 +6,7 @@ import (
 	"errors"
 	"fmt"
 	"reflect"
+	"unicode/utf8"
 
 	"github.com/NethermindEth/juno/blockchain"
 	"github.com/NethermindEth/juno/core"
@@ -467,6 +468,9 @@ func ReadBack(c *Checker, d db.KeyValueStore, bc *blockchain.Blockchain, rec *Re
 			u := uint64(i)
 			rc, err := core.GetReceiptByBlockAndIndex(d, n, u)
 			c.eq("core.GetReceiptByBlockAndIndex", err, rc, rec.Rcs[i])
+			if !utf8.ValidString(rec.Rcs[i].RevertReason) {
+				c.res.Hit("readback:receipt-with-invalid-utf8-revert-reason")
+			}
 			st, err := core.GetTransactionExecutionStatusByBlockAndIndex(d, n, u)
 			want := core.TransactionExecutionStatus{Reverted: rec.Rcs[i].Reverted, RevertReason: rec.Rcs[i].RevertReason}
 			c.eq("core.GetTransactionExecutionStatusByBlockAndIndex", err, st, want)
